@@ -38,13 +38,14 @@ theorem delBlock_summary (s : St) (pnOld : Nat) (adr : List String) :
     SameCtl (delBlock s pnOld adr).1 s ∧
     (∀ g ∈ (delBlock s pnOld adr).1.disk, g ∈ s.disk) ∧
     (∀ g ∈ s.disk, g ∉ (delBlock s pnOld adr).1.disk →
-      ∃ pd adr' rest, s.pnOlds = (pd, adr') :: rest ∧ g.pn = pd ∧ ((s.pnOlds.length : Int) > (s.n : Int) - 2)) ∧
+      ∃ pd adr' rest, s.pnOlds = (pd, adr') :: rest ∧ g.pn = pd ∧ ((s.pnOlds.length : Int) > (s.n : Int) - 2) ∧
+        qualifies s pnOld = true) ∧
     (∀ q ∈ keys (delBlock s pnOld adr).1.pnOlds,
       q ∈ keys s.pnOlds ∨ (q = pnOld ∧ qualifies s pnOld = true ∧ (delBlock s pnOld adr).2 = none)) := by
   have hsub : ∀ g ∈ (delHead s).1.disk, g ∈ s.disk := fun g hg => delHeadCore_disk_sub _ _ _ _ g hg
   have hrem : ∀ g ∈ s.disk, g ∉ (delHead s).1.disk → ∃ pd adr' rest, s.pnOlds = (pd, adr') :: rest ∧ g.pn = pd :=
     fun g hg hn => delHeadCore_removed _ _ _ _ g hg hn
-  rcases delBlock_cases s pnOld adr with ⟨_, he⟩ | ⟨hq, _, he⟩ | ⟨_, hl, _, he⟩ | ⟨hq, hl, _, he⟩
+  rcases delBlock_cases s pnOld adr with ⟨_, he⟩ | ⟨hq, _, he⟩ | ⟨hq, hl, _, he⟩ | ⟨hq, hl, _, he⟩
   · rw [he]
     exact ⟨⟨rfl, rfl, rfl, rfl, rfl, rfl, rfl, rfl, rfl, rfl⟩, fun g h => h, fun g h hn => absurd h hn, fun q h => Or.inl h⟩
   · rw [he]
@@ -57,13 +58,13 @@ theorem delBlock_summary (s : St) (pnOld : Nat) (adr : List String) :
     refine ⟨⟨rfl, rfl, rfl, rfl, rfl, rfl, rfl, rfl, rfl, rfl⟩, hsub, ?_, fun q h => Or.inl (delHead_keys_sub s q h)⟩
     intro g hg hn
     obtain ⟨pd, a, r, h1, h2⟩ := hrem g hg hn
-    exact ⟨pd, a, r, h1, h2, hl⟩
+    exact ⟨pd, a, r, h1, h2, hl, hq⟩
   · rw [he]
     split
     · refine ⟨⟨rfl, rfl, rfl, rfl, rfl, rfl, rfl, rfl, rfl, rfl⟩, hsub, ?_, ?_⟩
       · intro g hg hn
         obtain ⟨pd, a, r, h1, h2⟩ := hrem g hg hn
-        exact ⟨pd, a, r, h1, h2, hl⟩
+        exact ⟨pd, a, r, h1, h2, hl, hq⟩
       · intro q h
         rcases (mem_keys_dictSet pnOld adr _ q).mp h with h | h
         · exact Or.inr ⟨h, hq, rfl⟩
@@ -71,7 +72,7 @@ theorem delBlock_summary (s : St) (pnOld : Nat) (adr : List String) :
     · refine ⟨⟨rfl, rfl, rfl, rfl, rfl, rfl, rfl, rfl, rfl, rfl⟩, hsub, ?_, fun q h => Or.inl (delHead_keys_sub s q h)⟩
       intro g hg hn
       obtain ⟨pd, a, r, h1, h2⟩ := hrem g hg hn
-      exact ⟨pd, a, r, h1, h2, hl⟩
+      exact ⟨pd, a, r, h1, h2, hl, hq⟩
 
 
 /-! ### `replace` -/
@@ -110,7 +111,8 @@ theorem replace_shape (s : St) (pnOld : Nat) (files kept : List String) :
 
 theorem replace_removed (s : St) (pnOld : Nat) (files kept : List String) (g : DFile) (hg : g ∈ s.disk)
     (hn : g ∉ (replace s pnOld files kept).1.disk) :
-    ∃ pd adr rest, s.pnOlds = (pd, adr) :: rest ∧ g.pn = pd ∧ ((s.pnOlds.length : Int) > (s.n : Int) - 2) := by
+    ∃ pd adr rest, s.pnOlds = (pd, adr) :: rest ∧ g.pn = pd ∧ ((s.pnOlds.length : Int) > (s.n : Int) - 2) ∧
+      qualifies s pnOld = true := by
   rcases replace_shape s pnOld files kept with ⟨_, he⟩ | ⟨adrOld, _, ⟨_, he⟩ | ⟨_, he⟩⟩
   · rw [he] at hn; exact absurd hg hn
   · rw [he] at hn
@@ -155,7 +157,7 @@ theorem replace_intact (s : St) (pnOld : Nat) (files kept : List String) (p : Na
     intro g hgd hgp
     apply Classical.byContradiction
     intro hn
-    obtain ⟨pd, adr, rest, h1, h2, h3⟩ := replace_removed s pnOld files kept g hgd hn
+    obtain ⟨pd, adr, rest, h1, h2, h3, _⟩ := replace_removed s pnOld files kept g hgd hn
     exact hh pd adr rest h1 h3 (h2.symm.trans hgp)
   obtain ⟨h0, h1, h2⟩ := hi
   refine ⟨keep _ h0 rfl, keep _ h1 rfl, ?_⟩
